@@ -346,6 +346,7 @@ def register(ctx, it, only_run=False, res=None):
         ctx.replayers['dulprovider.DULServiceProvider.run*'] = replayer
         return
     ctx.replayers['*'] = replayer
+    ctx.native_crosschecks.append(('c03.py', {'search': 'segmentations'}, 'every segmentation of three conversations'))
     ctx.assumptions += [
         'recv() returns any non-empty chunk, b"" (peer closed) or raises socket.error; select() is nondeterministic; '
         'a chunk is never longer than asked for (irrelevant to the content clauses)',
